@@ -173,6 +173,7 @@ def run(ctx):
                           "verify_data_signature disagrees with the proved threshold policy on: %s" % m[:300])
 
     # ---------------------------------------------------------------- 4. exhaustive slice
+    ctx.log("built; exhaustive slice")
     level = 1 if ctx.quick else 2
     rc, stats, mism, samples, other, raw = run_pipe("exh", level, False)
     if rc != 0 or stats is None:
@@ -189,6 +190,7 @@ def run(ctx):
     ctx.cov["samples"] += samples[:3]
 
     # ---------------------------------------------------------------- 5. sampled stream (+ v1)
+    ctx.log("sampled stream")
     n_s = 1500 if ctx.quick else 40000
     rc, stats_s, mism, samples, other, raw = run_pipe("samp", n_s, True)
     if rc != 0 or stats_s is None:
@@ -230,6 +232,7 @@ def run(ctx):
     ctx.notes["v1_distribution"] = v1_dist
 
     # ---------------------------------------------------------------- 6. builders, digests, energy
+    ctx.log("builders")
     n_t = 64 if ctx.quick else 1600
     rc, out = c.run_bin(binp, ["tx", ctx.seed, n_t], timeout=1800)
     if rc != 0:
@@ -334,6 +337,7 @@ def run(ctx):
         ctx.cov["samples"].append({k: txs[0][k] for k in ("kind", "num_sigs", "header", "sign_hash")})
 
     # ---------------------------------------------------------------- 7. perturbations (implementation alone)
+    ctx.log("perturbations")
     n_p = 60 if ctx.quick else 1500
     rc, out = c.run_bin(binp, ["pert", ctx.seed, n_p], timeout=1800)
     if rc != 0:
@@ -360,6 +364,7 @@ def run(ctx):
     ctx.notes["perturbation_classes"] = classes
 
     # ---------------------------------------------------------------- 8. updates
+    ctx.log("updates")
     n_u = 300 if ctx.quick else 8000
     rc, out = c.run_bin(binp, ["upd", ctx.seed, n_u], timeout=1800)
     if rc != 0:
@@ -424,6 +429,7 @@ def run(ctx):
         ctx.cov["samples"].append({k: upd_some[0][k] for k in ("field", "keys", "acc", "actual", "signer", "ref_accept")})
 
     # ---------------------------------------------------------------- evidence
+    ctx.log("evidence")
     ctx.cov["evaluations"] = evaluations
     ctx.cov["traces_validated_against_impl"] = evaluations
     ctx.cov["distinct_nontrivial"] = exh_accept + stats_s["distinct_accept"] + len(seen_nontrivial)
